@@ -201,22 +201,87 @@ def rule_slots(report, prog):
 
 def rule_mac_inputs(report, prog):
     w = prog.func(SONY + '.FelicaLiteS.write_with_mac')
-    okk = bool(find(w.node, 'wcnt = self.read_without_mac(144)[0:3]')) and \
-        bool(find(w.node, "data = wcnt + b'\\x00' + bytearray([block]) + b'\\x00\\x91\\x00' + data")) and \
-        bool(find(w.node, "maca = self.generate_mac(data, flip(self._sk), self._iv) + wcnt + 5 * b'\\x00'")) and \
-        any(isinstance(c, ast.Call) and norm(c.func) == 'self.write_without_encryption' and norm(c.args[2]) == 'data[8:24] + maca' for c in ast.walk(w.node))
-    report.check(okk, 'C20-R4', key(w.qname, 'write MAC over WCNT || block || 91h || data under the flipped session key, sent with the data'), w.loc(),
-                 'write MAC inputs changed')
-    fl = w.closures.get('flip')
-    okk = fl is not None and norm(live(fl.node.body)[0]) == 'return sk[8:16] + sk[0:8]'
-    report.check(okk, 'C20-R4', key(w.qname, 'flip exchanges the key halves'), w.loc(), 'flip() changed')
+    # write_with_mac folded (checker's own evaluator) with the tag commands modelled: what goes into the MAC, under which key, and what
+    # is sent
+    from ..q import fold_block, NotConst
+    sk, iv = bytes(range(0x10, 0x20)), bytes(range(0xA0, 0xA8))
+    wblock = bytes(range(0x51, 0x61))
+    payload = bytes(range(0x01, 0x11))
+    seen = {'mac': [], 'write': [], 'read': []}
+
+    def generate_mac(data, key_, iv_, *rest):
+        seen['mac'].append((bytes(data), bytes(key_), bytes(iv_), rest))
+        return bytearray(b'MACMACMA')
+
+    def write(sc, bc, data):
+        seen['write'].append((sc, bc, bytes(data)))
+
+    def read(*blocks):
+        seen['read'].append(blocks)
+        return bytearray(wblock)
+    body = [st for st in w.node.body if not (isinstance(st, ast.Expr) and isinstance(st.value, ast.Constant))]
+    env = {'data': bytearray(payload), 'block': 5, 'self._sk': bytearray(sk), 'self._iv': bytearray(iv), 'int': int, 'bytearray': bytearray, 'bytes': bytes,
+           '__calls__': {'self.generate_mac': generate_mac, 'self.write_without_encryption': write, 'self.read_without_mac': read,
+                         'tt3.ServiceCode': lambda *a: ('SC',) + a, 'tt3.BlockCode': lambda *a: ('BC',) + a}}
+    why = None
+    try:
+        fold_block(body, env)
+    except (NotConst, IndexError, TypeError, ValueError) as e:
+        why = 'write_with_mac can no longer be folded: %s' % e
+    wcnt = wblock[0:3]
+    if why is None:
+        if seen['read'] != [(0x90,)]:
+            why = 'the write counter is read from %r' % (seen['read'],)
+        elif len(seen['mac']) != 1 or seen['mac'][0][0] != wcnt + b'\x00' + bytes([5]) + b'\x00\x91\x00' + payload:
+            why = 'the MAC is computed over %s' % ([m[0].hex() for m in seen['mac']],)
+        elif seen['mac'][0][1] != sk[8:16] + sk[0:8] or seen['mac'][0][2] != iv or any(seen['mac'][0][3]):
+            why = 'the MAC is computed under key %s / iv %s (flip_key %r)' % (seen['mac'][0][1].hex(), seen['mac'][0][2].hex(), seen['mac'][0][3])
+        elif len(seen['write']) != 1 or seen['write'][0][2] != payload + b'MACMACMA' + wcnt + 5 * b'\x00':
+            why = 'the command carries %s' % ([x[2].hex() for x in seen['write']],)
+        elif seen['write'][0][0] != [('SC', 0, 0b001001)] or seen['write'][0][1] != [('BC', 5), ('BC', 0x91)]:
+            why = 'the command addresses %r %r' % (seen['write'][0][0], seen['write'][0][1])
+    report.check(why is None, 'C20-R4', key(w.qname, 'write MAC over WCNT || block || 91h || data under the flipped session key, sent with the data'), w.loc(),
+                 'write MAC inputs changed: %s' % why)
+    report.check(why is None or 'under key' not in why, 'C20-R4', key(w.qname, 'flip exchanges the key halves'), w.loc(), 'flip() changed: %s' % why)
     r = [x for x in walk_no_nested(w.node) if isinstance(x, ast.Raise) and 'authenticated first' in norm(x)]
     report.check(len(r) == 1, 'C20-R4', key(w.qname, 'refuses to run without a session key'), w.loc(), 'session key precondition changed')
+    # generate_mac folded with a modelled cipher object: key order, mode, IV, the text that is encrypted and the part of the cipher
+    # text that becomes the MAC
+    from ..q import FoldObject
     g = prog.func(SONY + '.FelicaLite.generate_mac')
-    okk = bool(find(g.node, 'key = bytes(key[8:] + key[:8]) if flip_key else bytes(key)')) and \
-        any(isinstance(x, ast.Return) and norm(x.value) == 'bytearray(triple_des(key, CBC, bytes(iv)).encrypt(txt)[:-9:-1])' for x in walk_no_nested(g.node)) and \
-        any(isinstance(x, ast.Assert) and norm(x.test) == 'len(data) % 8 == 0 and len(key) == 16 and (len(iv) == 8)' for x in walk_no_nested(g.node))
-    report.check(okk, 'C20-R4', key(g.qname, '3DES-CBC under (key, iv), MAC = last 8 bytes reversed'), g.loc(), 'generate_mac changed shape')
+    gbody = [st for st in g.node.body if not (isinstance(st, ast.Expr) and isinstance(st.value, ast.Constant))]
+    why = None
+    for flip_key in (False, True):
+        made = []
+
+        class Cipher(FoldObject):
+            def __init__(self, *a):
+                made.append(a)
+
+            def encrypt(self, txt):
+                made.append(bytes(txt))
+                return bytes((b_ * 3 + i_) & 0xFF for i_, b_ in enumerate(txt))
+        msg = bytes(range(0x30, 0x48))
+        env = {'data': bytearray(msg), 'key': bytearray(sk), 'iv': bytearray(iv), 'flip_key': flip_key, 'CBC': 'CBC', 'int': int,
+               '__funcs__': {'triple_des': lambda *a: Cipher(*a)}}
+        try:
+            r_ = fold_block(gbody, env)
+        except (NotConst, IndexError, TypeError, ValueError) as e:
+            why = 'generate_mac can no longer be folded: %s' % e
+            break
+        txt = b''.join(msg[i_:i_ + 8][::-1] for i_ in range(0, len(msg), 8))
+        want_key = sk[8:] + sk[:8] if flip_key else sk
+        enc = bytes((b_ * 3 + i_) & 0xFF for i_, b_ in enumerate(txt))
+        if len(made) != 2 or tuple(bytes(x) if isinstance(x, (bytes, bytearray)) else x for x in made[0]) != (want_key, 'CBC', iv):
+            why = 'cipher set up with %r (flip_key=%r)' % (made[:1], flip_key)
+        elif made[1] != txt:
+            why = 'text that is encrypted is %s, not the 8 byte groups reversed' % made[1].hex()
+        elif r_[0] != 'return' or bytes(r_[1]) != enc[:-9:-1]:
+            why = 'the MAC is %r, not the last cipher block reversed' % (r_[1],)
+        if why:
+            break
+    okk = why is None and any(isinstance(x, ast.Assert) and norm(x.test) == 'len(data) % 8 == 0 and len(key) == 16 and (len(iv) == 8)' for x in walk_no_nested(g.node))
+    report.check(okk, 'C20-R4', key(g.qname, '3DES-CBC under (key, iv), MAC = last 8 bytes reversed'), g.loc(), 'generate_mac changed shape: %s' % why)
     a = prog.func(SONY + '.FelicaLite._authenticate')
     ivs = sorted(set(norm(s.value) for s in walk_no_nested(a.node) if isinstance(s, ast.Assign) and norm(s.targets[0]) == 'self._iv'))
     ver = [norm(k.value) for c in ast.walk(a.node) if isinstance(c, ast.Call) and norm(c.func) == 'self.generate_mac' for k in c.keywords if k.arg == 'iv']
